@@ -1,5 +1,5 @@
 use num::bigint::Sign;
-use num::{Signed, Zero};
+use num::{Signed, ToPrimitive, Zero};
 use syntree::node::Children;
 use syntree::{Node, Span};
 
@@ -160,8 +160,23 @@ fn pow(span: Span<u32>, base: Numeric, pow: Numeric) -> Result<Numeric> {
         return Err(Error::new(span, IllegalPowerNonInteger));
     }
 
+    // The unit is raised to the same power as the value.
+    let unit = if base.unit.is_empty() {
+        base.unit
+    } else {
+        let unit = match pow.value.numer().to_i32() {
+            Some(n) => base.unit.pow(n),
+            None => None,
+        };
+
+        match unit {
+            Some(unit) => unit,
+            None => return Err(Error::new(span, IllegalPowerTooLarge)),
+        }
+    };
+
     if pow.value.is_zero() {
-        return Ok(Numeric::new(Rational::new(1, 1), base.unit));
+        return Ok(Numeric::new(Rational::new(1, 1), unit));
     }
 
     if base.value.is_zero() {
@@ -169,7 +184,7 @@ fn pow(span: Span<u32>, base: Numeric, pow: Numeric) -> Result<Numeric> {
             return Err(Error::new(span, DivideByZero));
         }
 
-        return Ok(Numeric::new(base.value, base.unit));
+        return Ok(Numeric::new(base.value, unit));
     }
 
     let mut value = Rational::new(1, 1);
@@ -186,7 +201,7 @@ fn pow(span: Span<u32>, base: Numeric, pow: Numeric) -> Result<Numeric> {
         pow -= &sign;
     }
 
-    Ok(Numeric::new(value, base.unit))
+    Ok(Numeric::new(value, unit))
 }
 
 /// Parse a unit.
